@@ -34,7 +34,9 @@ RULE = ("DETERMINISTIC campaign (constant seed %d; VERIF_SEED is ignored because
         "common.ordinal_instance. (1) planted 1-Euclidean profiles: alternatives at distinct even integers, "
         "voters at integers that are no midpoint of two alternatives (no two distances tie), m in 2..6 and 1..6 "
         "distinct orders (thorough: also m <= 9, n <= 12), each profile in several storage orders (sorted by "
-        "position, reversed, extremes in the middle, shuffled); the generator's embedding must pass c19.check "
+        "position, reversed, extremes in the middle, shuffled), plus 'nested' planted profiles (2..4 voters, "
+        "alternatives on up to four scales 200^k so that several groups of alternatives are ranked alike by all "
+        "voters, m <= 12); the generator's embedding must pass c19.check "
         "(otherwise the case is discarded and counted as 'generator-bug'); the implementation must answer True "
         "and its map {0..n-1: voters, c+n-1: alternative c}, converted exactly with fractions.Fraction, must pass "
         "c19.check. (2)/(3) small profiles (all sets of orders over 3 alternatives, all sets of <= 2 orders and "
@@ -102,6 +104,43 @@ def planted(rng, m, n, spread=4):
             break
     prof = sorted(seen.items(), key=lambda kv: kv[1])
     return apos, [(list(r), v) for r, v in prof]
+
+
+def nested(rng, levels):
+    """A 1-Euclidean profile with several scales: 2..4 voters at integers in a small window, a few alternatives near
+    them, and per level (scale 200^level) up to two far alternatives that every voter ranks alike (uncoloured in
+    is_one_euclidean) plus, usually, a far pair whose midpoint separates the voters (coloured, but ranked below the
+    former): forces several F/G groups in _one_euclidean_gen_sets. Returns None when the draw is unusable."""
+    n = rng.randint(2, 4)
+    vs = sorted(rng.sample(range(-6, 7), n))
+    pos = [2 * x for x in rng.sample(range(-10, 11), rng.randint(1, 3))]
+    scale = 1
+    for _ in range(levels):
+        scale *= 200
+        for _ in range(rng.randint(0, 2)):
+            pos.append(rng.choice([-1, 1]) * (scale * rng.randint(2, 5) + 2 * rng.randint(0, 20)))
+        if rng.random() < 0.85:
+            mid2 = rng.randint(2 * vs[0] + 1, 2 * vs[-1] - 1)
+            if mid2 % 2:
+                mid2 += 1
+            a = -(scale * 20 + 2 * rng.randint(0, 30))
+            pos += [a, mid2 - a]
+    pos = list(dict.fromkeys(pos))
+    m = len(pos)
+    if m < 2 or m > 12:
+        return None
+    labels = list(range(1, m + 1))
+    rng.shuffle(labels)
+    apos = dict(zip(labels, pos))
+    mids = {(apos[a] + apos[b]) // 2 for a in apos for b in apos if a != b}
+    if any(v in mids for v in vs):
+        return None
+    seen = {}
+    for v in vs:
+        seen.setdefault(tuple(sorted(apos, key=lambda a: abs(v - apos[a]))), v)
+    if len(seen) < 2:
+        return None
+    return apos, [(list(r), v) for r, v in sorted(seen.items(), key=lambda kv: kv[1])]
 
 
 def storage_orders(rng, k, extra=1):
@@ -217,6 +256,17 @@ def generate(tier, seed):
         m = 1 + i % 6
         apos, prof = planted(rng, m, 1)
         out.append(mk_planted(list(range(1, m + 1)), prof, apos, [0], [rng.choice([1, 3])], gen="planted-one", storage=0))
+    # ---- (1'') planted profiles with several scales (several groups of uncoloured alternatives), m <= 12
+    rng = random.Random(CAMPAIGN_SEED + 11)
+    cnt = 0
+    while cnt < (150 if quick else 1500):
+        res = nested(rng, rng.randint(1, 3))
+        if res is None:
+            continue
+        cnt += 1
+        apos, prof = res
+        for j, order in enumerate(storage_orders(rng, len(prof), extra=1)):
+            out.append(mk_planted(sorted(apos), prof, apos, order, [1] * len(prof), gen="planted-nested", storage=j))
     # ---- (1') larger planted profiles (thorough only)
     if not quick:
         rng = random.Random(CAMPAIGN_SEED + 3)
